@@ -124,6 +124,21 @@ def build(job, scratch):
            "-I" + os.path.join(VERIF, "spec"), "-I" + os.path.join(VERIF, "stubs"), "-I" + os.path.join(VERIF, "contracts")]
     cmd += ["-I" + resolve(i) for i in job.get("incs", [])]
     cmd += ["-D" + d for d in job.get("defs", [])]
+    if job.get("remove_bodies"):
+        # callee functions defined in the same /repo file as the function under verification are replaced by contract
+        # stubs: compile the /repo files alone, drop the bodies, then link the stubs
+        rfiles = [f for f in files if f.startswith(REPO)]
+        ofiles = [f for f in files if not f.startswith(REPO)]
+        rc, out, _ = run(cmd + rfiles + ["-c", "-o", "r.gb"], scratch, 300, log=os.path.join(scratch, "gotocc0.log"))
+        if rc != 0:
+            raise ToolError("goto-cc failed (the tree does not compile for verification):\n" + out[-2000:])
+        rb = ["goto-instrument"]
+        for f in job["remove_bodies"]:
+            rb += ["--remove-function-body", f]
+        rc, out, _ = run(rb + ["r.gb", "r2.gb"], scratch, 300)
+        if rc != 0:
+            raise ToolError("goto-instrument --remove-function-body failed:\n" + out[-1500:])
+        files = ["r2.gb"] + ofiles
     cmd += files + ["-o", "a.gb", "--function", job.get("entry", "harness")]
     rc, out, _ = run(cmd, scratch, 300, log=os.path.join(scratch, "gotocc.log"))
     if rc != 0:
